@@ -45,15 +45,18 @@ func init() {
 			unit := c13Units(w.Tier)[u]
 			st := &c13State{}
 			st.ps.LenientMIDOrder = true
+			var hist byteHist
 			unit.Each(func(b []byte) bool {
+				hist.begin(w, b, unit.Name)
 				c13Check(w, st, b, unit.Name)
+				hist.end(histOK)
 				return !w.Expired()
 			})
 		},
-		Replay: bytesReplay(func(w *mc.W, b []byte, unit string) {
+		Replay: bytesReplay(func() func(w *mc.W, b []byte, unit string) {
 			st := &c13State{}
 			st.ps.LenientMIDOrder = true
-			c13Check(w, st, b, unit)
+			return func(w *mc.W, b []byte, unit string) { c13Check(w, st, b, unit) }
 		}),
 		Post: postDistinct(50),
 	})
@@ -67,6 +70,7 @@ type c13State struct {
 func c13Check(w *mc.W, st *c13State, b []byte, unit string) {
 	w.Eval()
 	p := st.ps.Parse(b)
+	histOK = p.MetaOK
 	if p.MIDOrder {
 		w.Skip()
 		return
